@@ -41,7 +41,13 @@ def nest(n, leaf):
 a = nest(90, 1)
 b = nest(90, 1)
 c = nest(90, 2)
-t = (a, (b, (c,)))
+def nest_t(n, leaf):
+    x = (leaf,)
+    for i in range(n):
+        x = (x, i)
+    return x
+t = nest_t(90, 1)
+u = nest_t(90, 1)
 cyc = [1]
 cyc.append(cyc)
 def depth(n):
@@ -49,8 +55,8 @@ def depth(n):
 '''
 
 DEEP_USE = '''
-load("lib0.star", "a", "b", "c", "t", "cyc", "depth")
-emit([[a == b, a == c, a < c, [a] == [b], {"k": a} == {"k": b}, c in [a, b, c], {t: 1}.get((a, (b, (c,))))] for _ in range(40)][-1])
+load("lib0.star", "a", "b", "c", "t", "u", "cyc", "depth")
+emit([[a == b, a == c, a < c, [a] == [b], {"k": a} == {"k": b}, c in [a, b, c], {t: 1}.get(u), t < u] for _ in range(40)][-1])
 emit(len(sorted([c, a, b, c, a])))
 emit([len(repr(a)), repr(cyc), str(cyc), len(json.encode(b))])
 emit(depth(45))
